@@ -87,7 +87,9 @@ def waiter : P Waiter := do
   | "W" =>
     let wid ← nat; let e ← ev; let waitTy ← nat; let req ← optNat; let hasReq ← bool
     let resolved ← opt ev; let timedOut ← bool
-    pure { wid, ev := e, waitTy, req, hasReq, resolved, timedOut }
+    let attempts ← nat; let firstAt ← optInt; let lastExc ← optNat; let lastFailedAt ← optInt; let r ← rc
+    pure { wid, ev := e, waitTy, req, hasReq, resolved, timedOut, attempts, firstAt, lastExc, lastFailedAt,
+           rc := r }
   | _ => fun _ => none
 
 def collected : P Collected := counted (do let b ← nat; let es ← counted ev; pure (b, es))
@@ -195,7 +197,8 @@ def sRC (r : RC) : String := sList (fun p => s!"{p.1} {p.2}") (sortBy (fun a b =
 def sAttempt (a : Attempt) : String :=
   s!"A {sEv a.ev} {sOptNat a.attempts} {sOptInt a.firstAt} {sOptNat a.lastExc} {sOptInt a.lastFailedAt} {sRC a.rc}"
 def sWaiter (w : Waiter) : String :=
-  s!"W {w.wid} {sEv w.ev} {w.waitTy} {sOptNat w.req} {sBool w.hasReq} {sOptEv w.resolved} {sBool w.timedOut}"
+  s!"W {w.wid} {sEv w.ev} {w.waitTy} {sOptNat w.req} {sBool w.hasReq} {sOptEv w.resolved} {sBool w.timedOut} " ++
+  s!"{w.attempts} {sOptInt w.firstAt} {sOptNat w.lastExc} {sOptInt w.lastFailedAt} {sRC w.rc}"
 def sCollected (c : Collected) : String :=
   sList (fun p => s!"{p.1} {sList sEv p.2}") (sortBy (fun a b => a.1 < b.1) c)
 def sInProg (i : InProg) : String :=
